@@ -312,6 +312,7 @@ def step (s : DState) (line : String) : DState × String :=
       match Genesis.init ext s.world.store (parseGenesis kv) with
       | .ok st => ({ s with world := { s.world with store := st } }, "out=ok")
       | .error e => (s, "out=" ++ showFail (some e))
+    | "genesis-default" => (s, "out=ok " ++ showGenesis Genesis.default)
     | "genesis-export" =>
       match Genesis.exportG s.world.store with
       | .ok g => (s, "out=ok " ++ showGenesis g)
